@@ -26,7 +26,8 @@ try:
         meta = json.load(open(os.path.join(d, 'meta.json')))
         root = os.path.join(tmp, bid)
         st.copy_repo(root)
-        p = subprocess.run(['patch', '-p1', '--no-backup-if-mismatch', '-i', os.path.join(d, 'patch.diff')], cwd=root, capture_output=True, text=True)
+        pf = os.path.join(d, 'patch.rebased.diff') if os.path.exists(os.path.join(d, 'patch.rebased.diff')) else os.path.join(d, 'patch.diff')
+        p = subprocess.run(['patch', '-p1', '--no-backup-if-mismatch', '-i', pf], cwd=root, capture_output=True, text=True)
         if p.returncode != 0:
             print('%-55s PATCH DOES NOT APPLY (skipped: %s)' % (bid, meta.get('if_not_applicable', 'no reason recorded')))
             if not meta.get('if_not_applicable'):
